@@ -108,6 +108,11 @@ def cause_of(data, err, off, src, kind, strict=False):
     if not strict and (RAW_TAG.search(src) or b'{=' in src or kind in ('raw-filter', 'html-inline', 'html-block', 'html-comment')):
         # raw HTML / XML typed by the author is copied into the output by design; the parser trips on it or on the tag that no longer matches
         return 'raw-markup-passthrough'
+    # inside a URL-carrying attribute value (the writers copy link and image destinations raw)
+    q = data.rfind(b'"', 0, off)
+    m = re.search(rb'(xlink:href|href|src)=$', data[max(0, q - 12):q]) if q > 0 else None
+    if m and b'"' not in data[q + 1:off]:
+        return 'url-attribute-unescaped:%s' % m.group(1).decode()
     return 'escaping:%s:%s' % (msg.replace(' ', '-'), kind)
 
 
